@@ -284,3 +284,42 @@ Example C19_wrapped_nonvacuous :
   /\ toy_wrun KDeflate [[1; 7]; [8; 0; 9]] = Some [1; 7; 8]
   /\ crc32 [104; 101; 108; 108; 111] = 907060870 /\ adler32 [104; 101; 108; 108; 111] = 103547413.
 Proof. vm_compute. repeat split. Qed.
+
+(* ---------------------------------------------------------------------------
+   decompression.gzip_uncompress (the helper the sitemap detector calls on a
+   peeked prefix): flushed, it is the one-shot reference; unflushed
+   (truncated=True) on a prefix it returns a prefix of what a longer buffer
+   gives, and an error stays an error. *)
+Theorem C19_gzip_uncompress :
+  forall zst zinit zstep zeof zfl (data a b : list N),
+    gzip_uncompress zst zinit zstep zeof zfl data false = whole zst zinit zstep zeof zfl W31 data
+    /\ match gzip_uncompress zst zinit zstep zeof zfl a true with
+       | None => gzip_uncompress zst zinit zstep zeof zfl (a ++ b) true = None
+       | Some o1 => gzip_uncompress zst zinit zstep zeof zfl (a ++ b) true = None
+                    \/ exists o2, gzip_uncompress zst zinit zstep zeof zfl (a ++ b) true = Some (o1 ++ o2)
+       end.
+Proof. exact gzip_uncompress_spec. Qed.
+Print Assumptions C19_gzip_uncompress.
+
+(* ---------------------------------------------------------------------------
+   Empty pieces.  The body readers never deliver one (proved for the reader
+   models, checked on every run).  Were a caller to: after a non-empty first
+   piece they are harmless - the first piece being non-empty suffices for the
+   reference theorem - but an empty FIRST piece is not: GzipDecompressor then
+   takes the body for "not gzip" and passes it through (witness below; the same
+   on the real class). *)
+Theorem C19_first_piece_nonempty_suffices :
+  forall zst zinit zstep zeof zfl (k : kind) (p : list N) (pieces : list (list N)),
+    p <> [] ->
+    run zst zinit zstep zeof zfl k (p :: pieces) = reference zst zinit zstep zeof zfl k (concat (p :: pieces)).
+Proof. exact first_nonempty_suffices. Qed.
+Print Assumptions C19_first_piece_nonempty_suffices.
+
+Theorem C19_empty_first_piece_refuted :
+  exists zst zinit zstep zeof zfl (k : kind) (pieces : list (list N)),
+    run zst zinit zstep zeof zfl k pieces <> oneshot zst zinit zstep zeof zfl k (concat pieces).
+Proof.
+  exists bool, (fun _ => false), toy_step, (fun s => s), (fun _ => []), KGzip, [[]; [31; 7; 0]].
+  vm_compute. discriminate.
+Qed.
+Print Assumptions C19_empty_first_piece_refuted.
